@@ -116,6 +116,42 @@ CLAIMED = {
   "Honest level: proof for the comparison lemma, the per-layer iff and the composition rule over the layer algebra; that "
   "each Rust modifier IS the layer the model says is established by exhaustive correspondence over the finite "
   "perturbation domain on the 31-type family (the inductive universe of nestings is represented by that family)."),
+ "C10": (
+  "20 Coq theorems (coq/Properties/C10.v, axiom-free) over an executable model of create/find_program_address, derived seeds(), "
+  "seeds_with_bump, both Seeded validations, signer_seeds and the client helpers, for every seed list, program id, key and bump, "
+  "with SHA-256 and the curve test universally quantified (Section variables, nothing assumed): validation with Seeds passes iff "
+  "the key is the canonical address (highest off-curve bump 255..1); with a bump iff the key is the created address; after either "
+  "validation the signer seeds and the client helpers recreate the key; seed order, constant prefix and little-endian / raw field "
+  "encodings are lossless and injective. Tie: 31 seed structs x random and boundary values x candidate keys (right PDA, permuted / "
+  "perturbed seeds, other bumps, non-PDAs) through the real Seeded<..> validation; the oracle table of each case is computed by an "
+  "independent Python SHA-256 + ed25519 decompression test and cross-checked against solana-address on every case.",
+  "PARTIAL: H and on_curve are oracles, so 'exactly' means the address the library derives; solana-address's create/find are "
+  "modelled (incl. its 255..1 bump loop). The GetSeeds template is exercised on a fixed family. With 15 real seeds there is no "
+  "canonical address on either side (stated as C10_find_limit). Found and fixed D8 (client helper's bump placement)."),
+ "C11": (
+  "17 Coq theorems (coq/Properties/C11.v, axiom-free): dispatch selects exactly the variant whose discriminant prefixes the data and "
+  "otherwise returns an error with an empty trace (for every hash oracle H standing for SHA-256); the trace of any instruction is a "
+  "prefix of decode ++ validate ++ [process] ++ cleanup cut exactly at the first failing step, whose code is returned, each phase at "
+  "most once; the field-validation order (stable Kahn sort) is, for ALL field lists and ALL acyclic `requires` relations, a "
+  "permutation placing every field after everything it requires and equal to declaration order when nothing is required; the "
+  "previously shipped insertion procedure is refuted (D4 witness). Tie: a generated crate expanded by the real macros - every "
+  "labelled DAG on <= 4 fields (573 structs; 2000 sampled 5-field graphs quick, all 29281 thorough) and 13 generated programs driven "
+  "through the real entrypoint natively (valid / truncated / unknown / trailing / misaligned data, 0..n+2 accounts, a failure armed "
+  "at every event of every instruction), compared with the extracted model and judged by an independent Python predicate.",
+  "SHA-256 is an oracle (hashlib in the correspondence); heck's snake-casing, bytemuck alignment, borsh for fixed-size args and "
+  "pinocchio's u64 error encoding are modelled. tools/gen_extra_c11.py re-derives constants and the syntactic phase order of "
+  "process_from_raw from the sources (C11_source_ties). Found and fixed D4 (requires ordering not a topological sort)."),
+ "C14": (
+  "13 Coq theorems (coq/Properties/C14.v, axiom-free) by induction over ALL account-set shapes (leaf with signer/mut layers, Program, "
+  "Sysvar, Option, Vec, array, Box, Rest, nested structs), all client values, program ids and lengths: decode(client metas) returns "
+  "the passed set and consumes exactly those accounts under wf_client (whose negation is exhibited as the documented placeholder "
+  "ambiguity); declared flags equal required flags, so validation and the entry path accept; CPI metas and infos equal the client's, "
+  "the count equals AccountLen for static sets (dynamic: at most 64, otherwise a panic, never UB), and no meta exceeds a leaf's "
+  "requirement. Tie: 45 derived account sets and instructions through MakeInstruction, InstructionSet::dispatch on native accounts "
+  "and MakeCpi with the CPI hook, plus borsh arguments echoed from process().",
+  "PARTIAL: the derive templates are mirrored and exercised on a fixed generated family; borsh arguments are judged on the "
+  "implementation only (independent Python encoder); keys are abstract. Found and fixed D21 ([A;N] ContainsOption) and D22 "
+  "(MaybeSigner<false>/MaybeMut<false> erased the inner requirement)."),
  "C15": (
   "11 Coq theorems (coq/Properties/C15.v, axiom-free) over an executable model of BorshAccount<T> abstract in the value type's "
   "borsh (de)serializer: for every value type with an exact-consumption round trip, every account state and every instruction "
